@@ -2,6 +2,8 @@
 //!
 //! One input line = one history:
 //!   `K<cap> C<nconns> step step ...`        (steps are comma-separated tokens, see `parse_step`)
+//!   sub,c,req | uns,c,req,target | acc,s | rej,s,code | cl,s,src,k | dr,s,k | snd,s,k,x | tsnd,s,k,x | isc,s,k |
+//!   ret,s,n|m|e,x | ab,s,k|d (abandon the subscribe call of s) | dp,s (drop the pending sink unanswered) | cd,c | stop
 //! One output line = the ordered observations, as JSON with sorted keys:
 //!   {"c":[[frame,..] per connection],"end":[server closed conn i],"r":[result of step i]}
 //!
@@ -11,34 +13,46 @@
 //! executes the commands the script sends it (accept, reject, clone, drop, send, is_closed, return).
 //! Sink clones that are still alive when the handler returns are moved to a detached keeper task (a handler
 //! that handed its clones to another task), so "handler returned" and "sinks dropped" stay separate events.
+//!
+//! Abandoned subscribe calls (`ab,s,k|d`): every server carries an rpc middleware (`Abandon`) that, for calls of
+//! `sub` that reached the handler, races the inner call future against a per-call signal.  It polls the inner
+//! future first and is otherwise transparent; when the script fires the signal it DROPS the inner future (the
+//! subscribe-call future of `register_subscription`: its oneshot receiver and `accepted_tx` go with it) and answers
+//! the call itself with error 44 "abandoned".  The library then drops the handler future.  Mode `d`: the pending
+//! sink dies with the handler future (the handler held it itself).  Mode `k`: the pending sink and the command
+//! loop move to a detached task (`pending_keeper`: the handler had handed its pending sink to another task), so
+//! a later `acc,s` / `rej,s,code` / `dp,s` (drop the pending sink unanswered) acts on the surviving sink.
 //! Clients are raw soketto transports; a dedicated reader task per connection feeds an mpsc (`receive()` is not
 //! cancel-safe, it is never wrapped in a timeout).  Everything runs on a current-thread runtime, one fresh
 //! runtime per history; after each step the harness polls to quiescence (barrier round-trips on every open
 //! connection while the server runs, idle rounds otherwise), every wait is bounded.
 use std::collections::HashMap;
-use std::sync::atomic::{AtomicU64, AtomicUsize, Ordering};
+use std::sync::atomic::{AtomicBool, AtomicU64, AtomicUsize, Ordering};
 use std::sync::{Arc, Mutex};
 use std::time::Duration;
 
 use futures_util::FutureExt;
+use futures_util::future::Either;
 use jrv::*;
 use jsonrpsee_client_transport::ws::{Url, WsTransportClientBuilder};
 use jsonrpsee_core::client::{ReceivedMessage, TransportReceiverT, TransportSenderT};
 use jsonrpsee_core::error::SubscriptionError;
+use jsonrpsee_core::middleware::{Batch, Notification, RpcServiceBuilder, RpcServiceT};
 use jsonrpsee_core::traits::IdProvider;
 use jsonrpsee_server::{
-	ConnectionGuard, PendingSubscriptionSink, RpcModule, Server, ServerConfig, ServerHandle, SubscriptionCloseResponse,
-	SubscriptionMessage, SubscriptionSink,
+	ConnectionGuard, MethodResponse, PendingSubscriptionSink, RpcModule, Server, ServerConfig, ServerHandle,
+	SubscriptionCloseResponse, SubscriptionMessage, SubscriptionSink,
 };
-use jsonrpsee_types::{ErrorObject, SubscriptionId};
+use jsonrpsee_types::{ErrorObject, Request, SubscriptionId};
 use serde_json::Value;
-use tokio::sync::mpsc;
+use tokio::sync::{mpsc, oneshot};
 use tokio::time::{Instant, sleep, timeout};
 
 const ID_BASE: u64 = 1000;
 const BARRIER_BASE: u64 = 1_000_000;
 const CMD_WAIT: Duration = Duration::from_secs(5);
 const REQ_WAIT: Duration = Duration::from_secs(3);
+const ABANDONED_CODE: i32 = 44;
 
 #[derive(Debug)]
 struct CountingIds(AtomicU64);
@@ -58,6 +72,7 @@ enum Cmd {
 	TrySend(u32, u64),
 	IsClosed(u32),
 	Ret(u8, u64),
+	DropPending,
 }
 
 struct SubCtl {
@@ -65,10 +80,80 @@ struct SubCtl {
 	res: mpsc::UnboundedReceiver<String>,
 }
 
+/// The script's handle on one subscribe call that reached the handler (middleware side).
+struct CallCtl {
+	fire: Option<oneshot::Sender<()>>,
+	dropped: Arc<AtomicBool>,
+}
+
 struct Ctl {
 	next: AtomicUsize,
 	reg: mpsc::UnboundedSender<(usize, SubCtl)>,
 	guard: Mutex<Option<ConnectionGuard>>,
+	/// handle -> abandon signal of its subscribe call
+	calls: Mutex<HashMap<usize, CallCtl>>,
+	/// handle -> "the pending sink outlives the handler future" (set by the script just before it abandons the call)
+	keep: Mutex<HashMap<usize, Arc<AtomicBool>>>,
+}
+
+/// Rpc middleware installed on every server: transparent unless the script abandons a subscribe call.
+#[derive(Clone)]
+struct Abandon<S> {
+	service: S,
+	ctl: Arc<Ctl>,
+}
+
+impl<S> RpcServiceT for Abandon<S>
+where
+	S: RpcServiceT<MethodResponse = MethodResponse, BatchResponse = MethodResponse, NotificationResponse = MethodResponse>
+		+ Send
+		+ Sync
+		+ Clone
+		+ 'static,
+{
+	type MethodResponse = MethodResponse;
+	type NotificationResponse = MethodResponse;
+	type BatchResponse = MethodResponse;
+
+	fn call<'a>(&self, req: Request<'a>) -> impl Future<Output = MethodResponse> + Send + 'a {
+		let is_sub = req.method_name() == "sub";
+		let id = req.id().into_owned();
+		// the subscription callback runs synchronously inside `call` and takes the next handle: that is how the
+		// middleware learns which handle (if any: not when the call is refused with -32006) this call belongs to
+		let before = self.ctl.next.load(Ordering::SeqCst);
+		let fut = self.service.call(req);
+		let after = self.ctl.next.load(Ordering::SeqCst);
+		let slot = if is_sub && after == before + 1 {
+			let (tx, rx) = oneshot::channel::<()>();
+			let dropped = Arc::new(AtomicBool::new(false));
+			self.ctl.calls.lock().unwrap().insert(before, CallCtl { fire: Some(tx), dropped: dropped.clone() });
+			Some((rx, dropped))
+		} else {
+			None
+		};
+		async move {
+			let Some((rx, dropped)) = slot else { return fut.await };
+			// `select` polls the inner future first: an answer that is ready always wins
+			match futures_util::future::select(Box::pin(fut), rx).await {
+				Either::Left((rp, _)) => rp,
+				Either::Right((Ok(()), inner)) => {
+					drop(inner);
+					dropped.store(true, Ordering::SeqCst);
+					MethodResponse::error(id, ErrorObject::owned(ABANDONED_CODE, "abandoned", None::<()>))
+				}
+				// the script went away without abandoning: keep waiting for the answer
+				Either::Right((Err(_), inner)) => inner.await,
+			}
+		}
+	}
+
+	fn batch<'a>(&self, batch: Batch<'a>) -> impl Future<Output = MethodResponse> + Send + 'a {
+		self.service.batch(batch)
+	}
+
+	fn notification<'a>(&self, n: Notification<'a>) -> impl Future<Output = MethodResponse> + Send + 'a {
+		self.service.notification(n)
+	}
 }
 
 fn raw(x: u64) -> SubscriptionMessage {
@@ -125,7 +210,79 @@ async fn sink_cmd(sinks: &mut HashMap<u32, SubscriptionSink>, cmd: Cmd) -> Strin
 			}
 			None => "na".into(),
 		},
-		Cmd::Accept | Cmd::Reject(_) | Cmd::Ret(..) => "na".into(),
+		Cmd::Accept | Cmd::Reject(_) | Cmd::Ret(..) | Cmd::DropPending => "na".into(),
+	}
+}
+
+async fn do_accept(p: PendingSubscriptionSink, sinks: &mut HashMap<u32, SubscriptionSink>) -> String {
+	match timeout(CMD_WAIT, p.accept()).await {
+		Ok(Ok(s)) => {
+			sinks.insert(0, s);
+			"ok".into()
+		}
+		Ok(Err(_)) => "err".into(),
+		Err(_) => "timeout".into(),
+	}
+}
+
+async fn do_reject(p: PendingSubscriptionSink, code: i32) -> String {
+	match timeout(CMD_WAIT, p.reject(ErrorObject::owned(code, "rejected", None::<()>))).await {
+		Ok(()) => "ok".into(),
+		Err(_) => "timeout".into(),
+	}
+}
+
+/// What the handler future owns.  When the library drops the handler future while the pending sink is still
+/// unanswered (that only happens to an abandoned call) and the script asked for it (`ab,s,k`), the pending sink
+/// and the command channels move to a detached task instead of dying with the handler.
+struct HandlerState {
+	pending: Option<PendingSubscriptionSink>,
+	chan: Option<(mpsc::UnboundedReceiver<Cmd>, mpsc::UnboundedSender<String>)>,
+	keep: Arc<AtomicBool>,
+}
+
+impl Drop for HandlerState {
+	fn drop(&mut self) {
+		if !self.keep.load(Ordering::SeqCst) {
+			return;
+		}
+		if let (Some(p), Some((rx, tx))) = (self.pending.take(), self.chan.take()) {
+			if let Ok(rt) = tokio::runtime::Handle::try_current() {
+				rt.spawn(pending_keeper(p, rx, tx));
+			}
+		}
+	}
+}
+
+/// The pending sink of an abandoned call, in a task of its own: accept / reject / drop it; should an accept ever
+/// succeed here its sinks are served like the handler's.
+async fn pending_keeper(p: PendingSubscriptionSink, mut rx: mpsc::UnboundedReceiver<Cmd>, tx: mpsc::UnboundedSender<String>) {
+	let mut pending = Some(p);
+	let mut sinks: HashMap<u32, SubscriptionSink> = HashMap::new();
+	while let Some(cmd) = rx.recv().await {
+		let r: String = match cmd {
+			Cmd::Accept => match pending.take() {
+				None => "na".into(),
+				Some(p) => do_accept(p, &mut sinks).await,
+			},
+			Cmd::Reject(code) => match pending.take() {
+				None => "na".into(),
+				Some(p) => do_reject(p, code).await,
+			},
+			Cmd::DropPending => match pending.take() {
+				None => "na".into(),
+				Some(p) => {
+					drop(p);
+					"ok".into()
+				}
+			},
+			// the handler future is gone: it cannot return any more
+			Cmd::Ret(..) => "na".into(),
+			other => sink_cmd(&mut sinks, other).await,
+		};
+		if tx.send(r).is_err() {
+			break;
+		}
 	}
 }
 
@@ -141,31 +298,29 @@ async fn keeper(mut sinks: HashMap<u32, SubscriptionSink>, mut rx: mpsc::Unbound
 
 async fn handler(
 	pending: PendingSubscriptionSink,
-	mut rx: mpsc::UnboundedReceiver<Cmd>,
+	rx: mpsc::UnboundedReceiver<Cmd>,
 	tx: mpsc::UnboundedSender<String>,
+	keep: Arc<AtomicBool>,
 ) -> SubscriptionCloseResponse {
-	let mut pending = Some(pending);
+	let mut st = HandlerState { pending: Some(pending), chan: Some((rx, tx)), keep };
 	let mut sinks: HashMap<u32, SubscriptionSink> = HashMap::new();
 	loop {
-		let Some(cmd) = rx.recv().await else { return SubscriptionCloseResponse::None };
+		let Some(cmd) = st.chan.as_mut().unwrap().0.recv().await else { return SubscriptionCloseResponse::None };
 		let r: String = match cmd {
-			Cmd::Accept => match pending.take() {
+			Cmd::Accept => match st.pending.take() {
 				None => "na".into(),
-				Some(p) => match timeout(CMD_WAIT, p.accept()).await {
-					Ok(Ok(s)) => {
-						sinks.insert(0, s);
-						"ok".into()
-					}
-					Ok(Err(_)) => "err".into(),
-					Err(_) => "timeout".into(),
-				},
+				Some(p) => do_accept(p, &mut sinks).await,
 			},
-			Cmd::Reject(code) => match pending.take() {
+			Cmd::Reject(code) => match st.pending.take() {
 				None => "na".into(),
-				Some(p) => match timeout(CMD_WAIT, p.reject(ErrorObject::owned(code, "rejected", None::<()>))).await {
-					Ok(()) => "ok".into(),
-					Err(_) => "timeout".into(),
-				},
+				Some(p) => do_reject(p, code).await,
+			},
+			Cmd::DropPending => match st.pending.take() {
+				None => "na".into(),
+				Some(p) => {
+					drop(p);
+					"ok".into()
+				}
 			},
 			Cmd::Ret(kind, x) => {
 				let resp = match kind {
@@ -173,15 +328,16 @@ async fn handler(
 					2 => SubscriptionCloseResponse::NotifErr(SubscriptionError::from(format!("e{}", x))),
 					_ => SubscriptionCloseResponse::None,
 				};
+				let (rx, tx) = st.chan.take().unwrap();
 				let _ = tx.send("ok".into());
 				// a pending sink that was neither accepted nor rejected is dropped here, with the handler
-				drop(pending);
+				drop(st.pending.take());
 				tokio::spawn(keeper(sinks, rx, tx));
 				return resp;
 			}
 			other => sink_cmd(&mut sinks, other).await,
 		};
-		if tx.send(r).is_err() {
+		if st.chan.as_ref().unwrap().1.send(r).is_err() {
 			return SubscriptionCloseResponse::None;
 		}
 	}
@@ -459,6 +615,34 @@ impl H {
 			Step::TrySend(s, k, x) => self.handler_cmd(s, Cmd::TrySend(k, x)).await,
 			Step::IsClosed(s, k) => self.handler_cmd(s, Cmd::IsClosed(k)).await,
 			Step::Ret(s, kind, x) => self.handler_cmd(s, Cmd::Ret(kind, x)).await,
+			Step::DropPending(s) => self.handler_cmd(s, Cmd::DropPending).await,
+			Step::Abandon(s, keep) => {
+				// the subscribe call of handle s is still waiting for its answer <=> its wrapper still holds the receiver
+				let (fire, dropped) = {
+					let mut calls = self.ctl.calls.lock().unwrap();
+					match calls.get_mut(&s) {
+						Some(c) => (c.fire.take(), c.dropped.clone()),
+						None => return "na".into(),
+					}
+				};
+				let Some(fire) = fire else { return "na".into() };
+				if fire.is_closed() {
+					return "na".into();
+				}
+				if let Some(k) = self.ctl.keep.lock().unwrap().get(&s) {
+					k.store(keep, Ordering::SeqCst);
+				}
+				if fire.send(()).is_err() {
+					return "na".into();
+				}
+				// wait until the middleware has really dropped the inner call future
+				let deadline = Instant::now() + REQ_WAIT;
+				while !dropped.load(Ordering::SeqCst) && Instant::now() < deadline {
+					tokio::task::yield_now().await;
+					self.drain();
+				}
+				if dropped.load(Ordering::SeqCst) { "ok".into() } else { "timeout".into() }
+			}
 			Step::ConnDrop(c) => {
 				let Some(conn) = self.conns.get_mut(c) else { return "na".into() };
 				let was_open = conn.alive && !conn.closed_seen;
@@ -496,6 +680,8 @@ enum Step {
 	TrySend(usize, u32, u64),
 	IsClosed(usize, u32),
 	Ret(usize, u8, u64),
+	DropPending(usize),
+	Abandon(usize, bool),
 	ConnDrop(usize),
 	Stop,
 }
@@ -523,6 +709,15 @@ fn parse_step(tok: &str) -> Option<Step> {
 			},
 			n(3).unwrap_or(0),
 		),
+		"dp" => Step::DropPending(n(1)? as usize),
+		"ab" => Step::Abandon(
+			n(1)? as usize,
+			match f.get(2).copied().unwrap_or("k") {
+				"k" => true,
+				"d" => false,
+				_ => return None,
+			},
+		),
 		"cd" => Step::ConnDrop(n(1)? as usize),
 		"stop" => Step::Stop,
 		_ => return None,
@@ -531,15 +726,23 @@ fn parse_step(tok: &str) -> Option<Step> {
 
 async fn run_case(cap: u32, nconns: usize, steps: Vec<Step>) -> String {
 	let (reg_tx, reg_rx) = mpsc::unbounded_channel();
-	let ctl = Arc::new(Ctl { next: AtomicUsize::new(0), reg: reg_tx, guard: Mutex::new(None) });
+	let ctl = Arc::new(Ctl {
+		next: AtomicUsize::new(0),
+		reg: reg_tx,
+		guard: Mutex::new(None),
+		calls: Mutex::new(HashMap::new()),
+		keep: Mutex::new(HashMap::new()),
+	});
 	let mut module = RpcModule::new(ctl.clone());
 	module
 		.register_subscription("sub", "note", "unsub", |_params, pending, ctx: Arc<Arc<Ctl>>, _ext| {
 			let h = ctx.next.fetch_add(1, Ordering::SeqCst);
 			let (cmd_tx, cmd_rx) = mpsc::unbounded_channel();
 			let (res_tx, res_rx) = mpsc::unbounded_channel();
+			let keep = Arc::new(AtomicBool::new(false));
+			ctx.keep.lock().unwrap().insert(h, keep.clone());
 			let _ = ctx.reg.send((h, SubCtl { cmd: cmd_tx, res: res_rx }));
-			handler(pending, cmd_rx, res_tx)
+			handler(pending, cmd_rx, res_tx, keep)
 		})
 		.unwrap();
 	module
@@ -559,7 +762,9 @@ async fn run_case(cap: u32, nconns: usize, steps: Vec<Step>) -> String {
 		.build();
 	let mut server = None;
 	for attempt in 0..5u64 {
-		match timeout(REQ_WAIT, Server::builder().set_config(cfg.clone()).build("127.0.0.1:0")).await {
+		let mw_ctl = ctl.clone();
+		let mw = RpcServiceBuilder::new().layer_fn(move |service| Abandon { service, ctl: mw_ctl.clone() });
+		match timeout(REQ_WAIT, Server::builder().set_config(cfg.clone()).set_rpc_middleware(mw).build("127.0.0.1:0")).await {
 			Ok(Ok(s)) => {
 				server = Some(s);
 				break;
